@@ -53,8 +53,13 @@ def run(R):
             c.check(tn is not None and bool(t0) and g.dominated_by(tn, {t0[0]})[0], f, trs[0], 'the closed test comes first', tag='fd-order')
         f = repo.func('socket_pexpect:SocketSpawn.isalive')
         rr = returns(f)
-        c.check(len(rr) == 1 and norm(rr[0].ast.value) == 'self.socket.fileno() >= 0', f, rr[0].ast if rr else None,
-                'a socket is alive iff its descriptor is valid (closed sockets report -1)', witness=norm(rr[0].ast.value) if rr else '', kind='ast', tag='socket-alive')
+        gs = f.cfg
+        neg = ('self.socket.fileno() < 0', True)
+        okt = [r for r in rr if is_const(r.ast.value, True) and conditions(gs, r) == {(neg[0], False)}]
+        okf = [r for r in rr if is_const(r.ast.value, False) and conditions(gs, r) == {neg}]
+        c.check(len(rr) == 2 and len(okt) == 1 and len(okf) == 1, f, rr[0].ast if rr else None,
+                'a socket is alive iff its descriptor is valid (closed sockets report -1)',
+                witness=str([(norm(r.ast.value), sorted(conditions(gs, r))) for r in rr]), kind='path', tag='socket-alive')
     with R.clause('D3', 'ORDER', floor=1, desc='kill() signals only a child it believes alive') as c:
         f = repo.func('pty_spawn:spawn.kill')
         g = f.cfg
